@@ -185,6 +185,8 @@ pub struct TowerSys {
     pub last_http: Option<(u16, u32)>,
     /// with an HTTP front attached: send and parse with the client plugin's own code (reqwest + ApiResponse<T>)
     pub use_plugin_client: bool,
+    /// the client's own code could not make sense of a reply of the (real) tower
+    pub client_parse_failure: Option<String>,
 }
 
 fn db_dir() -> PathBuf {
@@ -364,6 +366,7 @@ impl TowerSys {
             http: None,
             last_http: None,
             use_plugin_client: false,
+            client_parse_failure: None,
         }
     }
 
@@ -860,7 +863,10 @@ impl TowerSys {
                     };
                     Ok(Err(tonic::Status::new(grpc, e.error)))
                 }
-                Err(e) => Ok(Err(tonic::Status::new(tonic::Code::DataLoss, format!("client could not use the reply: {e:?}")))),
+                Err(e) => {
+                    self.client_parse_failure = Some(format!("{endpoint}: {e:?}"));
+                    Ok(Err(tonic::Status::new(tonic::Code::DataLoss, format!("client could not use the reply: {e:?}"))))
+                }
             };
         }
         let body = serde_json::to_vec(req).unwrap();
